@@ -181,6 +181,7 @@ def run(ctx):
         item = e.get("text") if "text" in e else [e.get("bits"), e.get("a")] if "bits" in e else [e.get("a"), e.get("b", e.get("n"))]
         kind = {"ttl": "ttl", "make": "make", "via": "via", "range": "range", "cmp": "srow", "add": "srow", "cmp32": "s32cmp", "add32": "s32add"}.get(e.get("op"), tr["kind"])
         ctx.violation(clause, classify(tr, line, clause), describe(e), {"kind": kind, "item": item, "event": e})
+    ctx.extra["rejected_events_by_signature"] = dict(collections.Counter(v.sig for v in ctx.violations))
 
     # drift: the deterministic choices of the library (never an alarm)
     soft = [tr for tr in traces if tr["kind"] in STRICT_KINDS or ctx.replay_case]
